@@ -401,6 +401,14 @@ def probe_admitted(ctx):
     return doc
 
 
+def leading_int(s):
+    """`84u8` -> `84`: sized integers print with their literal suffix"""
+    i = 1 if s.startswith("-") else 0
+    while i < len(s) and s[i].isdigit():
+        i += 1
+    return s[:i]
+
+
 def admitted_program_lines(ctx, doc, n):
     """Elk programs for admitted (op, L, R) triples: the accepted operand must not raise a type error."""
     rk_of = {"Int": ["s", "b"], "Int64": ["i64"], "Int32": ["i32"], "Int16": ["i16"], "Int8": ["i8"],
@@ -436,7 +444,7 @@ def admitted_program_lines(ctx, doc, n):
             ctx.stat("prog-rejected")
             continue
         ctx.case(("prog", L, op, a, rk, c))
-        got = (ans.get("stdout") or "").strip()
+        got = leading_int((ans.get("stdout") or "").strip())
         good = ans.get("outcome") == "value" and exp is not None and "ok " + got == exp
         if good:
             continue
@@ -476,7 +484,7 @@ def sweep8():
 
 def replay_program(ctx, inp):
     ans = vlib.run_programs([{"id": "c07replay", "src": inp["program"], "timeout_ms": 10000}])[0]
-    got = (ans.get("stdout") or "").strip()
+    got = leading_int((ans.get("stdout") or "").strip())
     if not (ans.get("outcome") == "value" and "ok " + got == inp["expect"]):
         ctx.violation("property-fails", inp, "replayed: outcome %s %s %s, printed %r" % (
             ans.get("outcome"), ans.get("err_class"), ans.get("err_msg"), got))
